@@ -2,6 +2,7 @@ import CJ.Drv.Loop
 import CJ.Drv.Ingest
 import CJ.Drv.IngestStore
 import CJ.Drv.IngestText
+import CJ.Drv.IngestLive
 /-! Driver for C07: the registration ingest model (`c07`: one session, flags and events; `c07s`: sequences of
 messages with the stored registration objects). -/
 open CJ.Drv
@@ -10,4 +11,5 @@ def main : IO Unit := runDriver fun
   | "c07" :: args => Ingest.handle args
   | "c07s" :: args => IngestStore.handle args
   | "c07b" :: args => IngestText.handle args
+  | "c07r" :: args => IngestLive.handle args
   | _ => none
